@@ -145,6 +145,24 @@ class Package:
         self._mut = {}
         self._busy = set()
 
+    def stream_attrs(self):
+        if not hasattr(self, "_stream_attrs"):
+            st, decl = set(), set()
+            for m in self.mods.values():
+                for c in m.classes.values():
+                    for s_ in c.body:
+                        if isinstance(s_, ast.AnnAssign) and isinstance(s_.target, ast.Name):
+                            decl.add(s_.target.id)
+                            txt = ast.unparse(s_.annotation)
+                            if any(t in txt for t in ("BytesIO", "BinaryIO", "IO[", "StringIO", "BufferedReader", "RawIOBase", "BufferedIOBase")):
+                                st.add(s_.target.id)
+            self._stream_attrs, self._declared_attrs = st, decl
+        return self._stream_attrs
+
+    def declared_attrs(self):
+        self.stream_attrs()
+        return self._declared_attrs
+
     def resolve(self, m, q, call):
         f = call.func
         if isinstance(f, ast.Name):
@@ -443,6 +461,17 @@ class Alias:
                         must.add(tg.id)
         return must
 
+    def _is_stream(self, e):
+        """Declared as a stream wherever the package declares an attribute of that name (class-level annotation: BytesIO, BinaryIO, IO[...])."""
+        return isinstance(e, ast.Attribute) and e.attr in self.pkg.stream_attrs()
+
+    def _maybe_stream(self, e):
+        """Not known to be something else: an attribute the package declares only with non-stream types (locks, lists, str) is not a
+        stream; locals / undeclared attributes may be one."""
+        if isinstance(e, ast.Attribute):
+            return e.attr in self.pkg.stream_attrs() or e.attr not in self.pkg.declared_attrs()
+        return isinstance(e, (ast.Name, ast.Subscript))
+
     def sites(self):
         """[(node, text, definite)]"""
         out = []
@@ -473,10 +502,32 @@ class Alias:
                     and not isinstance(n.value, (ast.Constant, ast.JoinedStr)) and isinstance(n.op, (ast.Add, ast.BitOr, ast.BitAnd, ast.Sub, ast.Mult)):
                 if isinstance(n.value, (ast.List, ast.ListComp, ast.Set, ast.Dict)) or self.d(n.value) < INF:
                     out.append((n, f"in-place {ast.unparse(n)[:60]} on a shared object", False))
+            if isinstance(n, (ast.With, ast.AsyncWith)):
+                # a stream of the observed object used as a context manager (directly or through contextlib.closing) is closed on exit
+                for it in n.items:
+                    ce = it.context_expr
+                    if isinstance(ce, ast.Call) and dotted(ce.func).split(".")[-1] == "closing" and ce.args:
+                        ce = ce.args[0]
+                    if isinstance(ce, (ast.Name, ast.Attribute, ast.Subscript)) and self.d(ce) == 0 and self._maybe_stream(ce):
+                        out.append((n, f"with {ast.unparse(ce)[:60]}: closes a stream that belongs to the observed object on exit",
+                                    literal(ce) and self._is_stream(ce)))
             if isinstance(n, ast.Call):
                 f = n.func
                 if isinstance(f, ast.Attribute) and f.attr in MUTATORS and self.d(f.value) == 0:
                     site(n, f.value, f"mutating call {ast.unparse(f)[:60]}()")
+                if isinstance(f, ast.Attribute) and f.attr in ("close", "detach") and self.d(f.value) == 0 and self._maybe_stream(f.value):
+                    # a stream reachable from the observed object is closed: its content is gone for every later observer / to_json()
+                    out.append((n, f"{ast.unparse(f)[:60]}() closes a stream that belongs to the observed object", literal(f.value) and self._is_stream(f.value)))
+                cn = _canonical(self.m, f)
+                if (cn in LIB_OWNERS or (cn.split(".")[-1] in _OWNER_TAILS and cn.split(".")[0] in ("io", "_io", "codecs", "tempfile"))) and n.args \
+                        and self.d(n.args[0]) == 0:
+                    par = getattr(self, "_par", None)
+                    if par is None:
+                        par = self._par = {id(ch): p_ for p_ in ast.walk(self.fnode) for ch in ast.iter_child_nodes(p_)}
+                    dt_ = _detached(self.fnode, par, n)
+                    if dt_ != "yes":
+                        out.append((n, f"{cn}({ast.unparse(n.args[0])[:40]}) takes ownership of a stream that belongs to the observed object: closing / "
+                                    "finalising the wrapper closes it", literal(n.args[0]) and dt_ == "no"))
                 if dotted(f) in ("setattr", "delattr") and n.args and self.d(n.args[0]) == 0:
                     site(n, n.args[0], f"{dotted(f)}({ast.unparse(n.args[0])[:40]}, ...)")
                 res = self.pkg.resolve(self.m, self.q, n)
@@ -512,43 +563,205 @@ WRITERS = {"write", "writelines", "truncate", "close", "detach", "__setitem__", 
 INPUT_PARAM = "file_like"
 
 
-def input_buffer_functions(mods, pkg):
+# Library entry points that only read / reposition a stream handed to them and leave it open (the listed read-only entry points of the
+# extractor frame).  `zipfile.ZipFile` / `tarfile.open` / `open`: the mode is checked separately.
+LIB_READERS = {"zipfile.ZipFile", "zipfile.is_zipfile", "tarfile.open", "tarfile.TarFile", "tarfile.is_tarfile", "olefile.OleFileIO", "olefile.isOleFile",
+               "pypdf.PdfReader", "openpyxl.load_workbook", "xlrd.open_workbook", "py7zr.SevenZipFile", "py7zr.is_7zfile",
+               "email.message_from_binary_file", "email.message_from_file", "shutil.copyfileobj", "hashlib.file_digest", "PIL.Image.open",
+               "msoffcrypto.OfficeFile", "xml.etree.ElementTree.parse", "xml.etree.ElementTree.iterparse", "defusedxml.ElementTree.parse",
+               "defusedxml.ElementTree.iterparse", "lxml.etree.parse", "lxml.etree.iterparse", "json.load", "csv.reader", "csv.DictReader",
+               "mailbox.mboxMessage", "gzip.GzipFile", "gzip.open", "bz2.BZ2File", "bz2.open", "lzma.LZMAFile", "lzma.open", "struct.unpack_from",
+               "codecs.getreader", "pickle.load"}
+# builtins / helpers that do not touch the stream at all
+LIB_INERT = {"isinstance", "len", "type", "id", "bool", "repr", "str", "hasattr", "getattr", "callable", "print", "iter", "next", "bytes", "bytearray",
+             "memoryview", "hash", "issubclass", "format", "typing.cast", "cast"}
+# wrappers that take OWNERSHIP of the stream they wrap: closing or finalising the wrapper closes the underlying stream (io.IOBase.__del__
+# calls close()), so a wrapper that goes out of scope closes the caller's buffer -- unless `.detach()` hands the stream back first
+LIB_OWNERS = {"io.TextIOWrapper", "io.BufferedReader", "io.BufferedRandom", "io.BufferedWriter", "io.BufferedRWPair", "_io.TextIOWrapper",
+              "_io.BufferedReader", "codecs.StreamReaderWriter", "codecs.EncodedFile", "tempfile.SpooledTemporaryFile"}
+
+
+_OWNER_TAILS = {x.split(".")[-1] for x in LIB_OWNERS}
+
+
+def class_bases(mods):
+    """{(rel, class): [(rel2, class2)]} for bases defined in the package."""
+    out = {}
+    for rel, m in mods.items():
+        for cq, c in m.classes.items():
+            bs = []
+            for b in c.bases:
+                d = dotted(b)
+                if not d:
+                    continue
+                if d in m.classes:
+                    bs.append((rel, d))
+                    continue
+                origin = m.imports.get(d.split(".")[0], "")
+                if origin.startswith("sharepoint2text."):
+                    rel2 = origin.rsplit(".", 1)[0].replace(".", "/") + ".py"
+                    name = origin.rsplit(".", 1)[1]
+                    if rel2 in mods and name in mods[rel2].classes:
+                        bs.append((rel2, name))
+            out[(rel, cq)] = bs
+    return out
+
+
+def _ancestors(bases, key):
+    seen, work = [], [key]
+    while work:
+        k = work.pop()
+        for b in bases.get(k, []):
+            if b not in seen:
+                seen.append(b)
+                work.append(b)
+    return seen
+
+
+def resolve_by_name(mods, m, call):
+    """`recv.meth(...)` on a receiver that is not an imported module / class: the methods of that name defined by classes of the
+    package (over-approximation for receivers of unknown type, e.g. `self._reader.extractall(...)`): [(module, qualname, node)]."""
+    f = call.func
+    if not isinstance(f, ast.Attribute) or f.attr.startswith("__"):
+        return []
+    root = f.value
+    while isinstance(root, ast.Attribute):
+        root = root.value
+    if not isinstance(root, ast.Name) or (root.id in m.imports and root.id != "self"):
+        return []
+    out = []
+    for m2 in mods.values():
+        for cq in m2.classes:
+            fn = m2.functions.get(f"{cq}.{f.attr}")
+            if fn is not None and not isinstance(fn, ast.Lambda):
+                out.append((m2, f"{cq}.{f.attr}", fn))
+    return out
+
+
+def resolve_ctor(mods, bases, m, q, call):
+    """A call that constructs an instance of a class of the package (`Cls(...)`, `super().__init__(...)`, `Base.__init__(self, ...)`):
+    (module, 'Cls.__init__', node, n_skipped_params) of the initialiser that runs, or None."""
+    f = call.func
+    start = None
+    skip_self = 1
+    if isinstance(f, ast.Name):
+        if f.id in m.classes:
+            start = [(m.rel, f.id)]
+        else:
+            origin = m.imports.get(f.id, "")
+            if origin.startswith("sharepoint2text."):
+                rel2 = origin.rsplit(".", 1)[0].replace(".", "/") + ".py"
+                name = origin.rsplit(".", 1)[1]
+                if rel2 in mods and name in mods[rel2].classes:
+                    start = [(rel2, name)]
+    elif isinstance(f, ast.Attribute) and f.attr == "__init__":
+        cls = q.split(".<locals>.")[0].rsplit(".", 1)[0] if "." in q else None
+        if isinstance(f.value, ast.Call) and dotted(f.value.func) == "super" and cls and (m.rel, cls) in bases:
+            start = _ancestors(bases, (m.rel, cls))
+        elif isinstance(f.value, ast.Name) and f.value.id in m.classes:
+            start = [(m.rel, f.value.id)]
+    if not start:
+        return None
+    if isinstance(f, ast.Name):
+        start = start + _ancestors(bases, start[0])
+    for rel2, cq in start:
+        init = mods[rel2].functions.get(f"{cq}.__init__")
+        if init is not None:
+            return mods[rel2], f"{cq}.__init__", init, skip_self
+    return None
+
+
+def _held_attr(e, attrs):
+    return isinstance(e, ast.Attribute) and isinstance(e.value, ast.Name) and e.value.id == "self" and e.attr in attrs
+
+
+def input_buffer_functions(mods, pkg, held_out=None):
     """{(rel, q): {names that are the caller's buffer}} -- seeded by parameters called `file_like`, closed under passing the buffer
-    (or a plain alias of it) to a function of the package."""
+    (or a plain alias of it) to a function of the package or to the initialiser of a class of the package.  A buffer stored on the
+    instance (`self.x = file_like`) is the caller's buffer in every method of that class and of its subclasses: `held_out`
+    receives {(rel, q): {attribute names}} for those methods."""
     ib = {}
-    work = []
+    bases = class_bases(mods)
+    held_cls = {}          # (rel, class) -> {attr}
     for rel, m in mods.items():
         for q, f in m.functions.items():
             if not isinstance(f, ast.Lambda) and INPUT_PARAM in params_of(f):
                 ib[(rel, q)] = {INPUT_PARAM}
-                work.append((rel, q))
-    while work:
-        rel, q = work.pop()
-        m = mods[rel]
-        f = m.functions[q]
-        names = aliases_of(f, ib[(rel, q)])
-        for n in own_nodes(f):
-            if not isinstance(n, ast.Call):
-                continue
-            res = pkg.resolve(m, q, n)
-            if res is None:
-                continue
-            m2, q2, f2, is_method = res
-            ps = params_of(f2)
-            if is_method and ps:
-                ps = ps[1:]
-            hit = []
-            for i, a in enumerate(n.args):
-                if isinstance(a, ast.Name) and a.id in names and i < len(ps):
-                    hit.append(ps[i])
-            for k in n.keywords:
-                if isinstance(k.value, ast.Name) and k.value.id in names and k.arg in ps:
-                    hit.append(k.arg)
-            if hit:
-                cur = ib.setdefault((m2.rel, q2), set())
-                if not set(hit) <= cur:
-                    cur |= set(hit)
-                    work.append((m2.rel, q2))
+
+    def cls_of(rel, q):
+        head = q.split(".<locals>.")[0]
+        return (rel, head.rsplit(".", 1)[0]) if "." in head else None
+
+    def attrs_for(rel, q):
+        c = cls_of(rel, q)
+        if c is None:
+            return set()
+        out = set(held_cls.get(c, ()))
+        for a in _ancestors(bases, c):
+            out |= held_cls.get(a, set())
+        return out
+
+    for _round in range(12):
+        changed = False
+        todo = set(ib)
+        for (rel, cq) in list(held_cls):
+            for (r2, c2) in bases:
+                if (r2, c2) == (rel, cq) or (rel, cq) in _ancestors(bases, (r2, c2)):
+                    for q2 in mods[r2].functions:
+                        if q2.startswith(c2 + ".") and not isinstance(mods[r2].functions[q2], ast.Lambda):
+                            todo.add((r2, q2))
+        for (rel, q) in sorted(todo):
+            m = mods[rel]
+            f = m.functions[q]
+            names = aliases_of(f, ib.get((rel, q), set()))
+            attrs = attrs_for(rel, q)
+
+            def is_buf(e):
+                return (isinstance(e, ast.Name) and e.id in names) or _held_attr(e, attrs)
+
+            for n in own_nodes(f):
+                if isinstance(n, ast.Assign) and is_buf(n.value):
+                    for t in n.targets:
+                        if isinstance(t, ast.Attribute) and isinstance(t.value, ast.Name) and t.value.id == "self":
+                            c = cls_of(rel, q)
+                            if c is not None and t.attr not in held_cls.setdefault(c, set()):
+                                held_cls[c].add(t.attr)
+                                changed = True
+                if not isinstance(n, ast.Call):
+                    continue
+                if not (any(is_buf(a) for a in n.args) or any(is_buf(k.value) for k in n.keywords)):
+                    continue
+                res = pkg.resolve(m, q, n)
+                if res is not None:
+                    m2, q2, f2, is_method = res
+                    targets = [(m2, q2, f2, 1 if is_method else 0)]
+                else:
+                    rc = resolve_ctor(mods, bases, m, q, n)
+                    targets = [rc] if rc is not None else [(m2, q2, f2, 1) for (m2, q2, f2) in resolve_by_name(mods, m, n)]
+                for (m2, q2, f2, skip) in targets:
+                    ps = params_of(f2)[skip:]
+                    hit = []
+                    for i, a in enumerate(n.args):
+                        if is_buf(a) and i < len(ps):
+                            hit.append(ps[i])
+                    for k in n.keywords:
+                        if is_buf(k.value) and k.arg in ps:
+                            hit.append(k.arg)
+                    if hit:
+                        cur = ib.setdefault((m2.rel, q2), set())
+                        if not set(hit) <= cur:
+                            cur |= set(hit)
+                            changed = True
+        if not changed:
+            break
+    if held_out is not None:
+        for rel, m in mods.items():
+            for q, f in m.functions.items():
+                if isinstance(f, ast.Lambda):
+                    continue
+                a = attrs_for(rel, q)
+                if a:
+                    held_out[(rel, q)] = a
     return ib
 
 
@@ -586,31 +799,125 @@ def aliases_of(fnode, names):
     return names
 
 
-def input_buffer_sites(fnode, names):
-    """[(lineno, text, definite)] -- anything but reading / repositioning done to the caller's buffer."""
-    names = aliases_of(fnode, names)
-    out = []
+def _canonical(mod, e):
+    d = dotted(e)
+    if not d or mod is None:
+        return d or ""
+    head, _, rest = d.partition(".")
+    origin = mod.imports.get(head)
+    if origin:
+        return origin + ("." + rest if rest else "")
+    return d
+
+
+def _detached(fnode, par, call):
+    """The owning wrapper built by `call` hands the stream back with `.detach()`: 'yes' when the wrapper is bound to a local whose
+    `.detach()` is called in a `finally:` block or later in the statement list that binds it, 'maybe' when `.detach()` occurs
+    elsewhere in the function, 'no' otherwise."""
+    p = par.get(id(call))
+    tgt = None
+    if isinstance(p, ast.Assign) and len(p.targets) == 1 and isinstance(p.targets[0], ast.Name) and p.value is call:
+        tgt = p.targets[0].id
+    elif isinstance(p, ast.AnnAssign) and isinstance(p.target, ast.Name) and p.value is call:
+        tgt = p.target.id
+    elif isinstance(p, ast.NamedExpr) and p.value is call:
+        tgt = p.target.id
+    if tgt is None:
+        return "no"
+
+    def detaches(n):
+        return isinstance(n, ast.Call) and isinstance(n.func, ast.Attribute) and n.func.attr == "detach" and isinstance(n.func.value, ast.Name) \
+            and n.func.value.id == tgt
+
+    anywhere = any(detaches(n) for n in own_nodes(fnode))
+    if not anywhere:
+        return "no"
     for n in own_nodes(fnode):
-        if isinstance(n, ast.Call) and isinstance(n.func, ast.Attribute) and isinstance(n.func.value, ast.Name) and n.func.value.id in names:
+        if isinstance(n, ast.Try) and any(detaches(x) for st in n.finalbody for x in ast.walk(st)):
+            return "yes"
+    holder = par.get(id(p))
+    for field in ("body", "orelse", "finalbody"):
+        blk = getattr(holder, field, None)
+        if isinstance(blk, list) and p in blk:
+            later = blk[blk.index(p) + 1:]
+            for st in later:
+                if isinstance(st, (ast.Return, ast.Raise)) and not any(detaches(x) for x in ast.walk(st)):
+                    break
+                if isinstance(st, (ast.Expr, ast.Assign, ast.Return)) and any(detaches(x) for x in ast.walk(st)):
+                    return "yes"
+    return "maybe"
+
+
+def input_buffer_sites(fnode, names, mod=None, q=None, pkg=None, attrs=(), mods=None, bases=None):
+    """[(lineno, text, definite)] -- anything but reading / repositioning done to the caller's buffer.  The buffer is a local name
+    (`names`, closed under plain aliasing) or an attribute of `self` that holds it (`attrs`).  With `mod` given, handing the buffer
+    to a callee outside the package is checked against the listed read-only entry points (LIB_READERS): an owning wrapper
+    (LIB_OWNERS) without `.detach()` is a definite site, an unknown callee is `unknown` (definite=False: the replayer decides)."""
+    names = aliases_of(fnode, names)
+    attrs = set(attrs)
+    out = []
+    par = {}
+    for n in ast.walk(fnode):
+        for ch in ast.iter_child_nodes(n):
+            par[id(ch)] = n
+
+    def is_buf(e):
+        return (isinstance(e, ast.Name) and e.id in names) or _held_attr(e, attrs)
+
+    def show(e):
+        return ast.unparse(e)
+
+    for n in own_nodes(fnode):
+        if isinstance(n, ast.Call) and isinstance(n.func, ast.Attribute) and is_buf(n.func.value):
             if n.func.attr not in READ_ONLY:
-                out.append((n.lineno, f"{n.func.value.id}.{n.func.attr}()", n.func.attr in WRITERS))
+                out.append((n.lineno, f"{show(n.func.value)}.{n.func.attr}()", n.func.attr in WRITERS))
         if isinstance(n, (ast.Assign, ast.AugAssign, ast.Delete)):
             for t in (n.targets if isinstance(n, (ast.Assign, ast.Delete)) else [n.target]):
-                if isinstance(t, (ast.Attribute, ast.Subscript)) and isinstance(t.value, ast.Name) and t.value.id in names:
-                    out.append((n.lineno, f"store into {t.value.id}", True))
+                if isinstance(t, (ast.Attribute, ast.Subscript)) and is_buf(t.value):
+                    out.append((n.lineno, f"store into {show(t.value)}", True))
         if isinstance(n, (ast.With, ast.AsyncWith)):
             # the buffer used as a context manager (directly or through contextlib.closing): leaving the block closes it, the caller
             # can no longer read what it passed in
             for it in n.items:
                 ce = it.context_expr
-                if isinstance(ce, ast.Name) and ce.id in names:
-                    out.append((n.lineno, f"with {ce.id}: closes the caller's buffer on exit", True))
-                elif isinstance(ce, ast.Call) and dotted(ce.func).split(".")[-1] == "closing" and ce.args and isinstance(ce.args[0], ast.Name) \
-                        and ce.args[0].id in names:
-                    out.append((n.lineno, f"with closing({ce.args[0].id}): closes the caller's buffer on exit", True))
-        if isinstance(n, ast.Call) and dotted(n.func).split(".")[-1] in ("ZipFile", "TarFile", "open") and n.args \
-                and isinstance(n.args[0], ast.Name) and n.args[0].id in names:
+                if is_buf(ce):
+                    out.append((n.lineno, f"with {show(ce)}: closes the caller's buffer on exit", True))
+                elif isinstance(ce, ast.Call) and dotted(ce.func).split(".")[-1] == "closing" and ce.args and is_buf(ce.args[0]):
+                    out.append((n.lineno, f"with closing({show(ce.args[0])}): closes the caller's buffer on exit", True))
+        if isinstance(n, ast.Call) and dotted(n.func).split(".")[-1] in ("ZipFile", "TarFile", "open") and n.args and is_buf(n.args[0]):
             mode = n.args[1] if len(n.args) > 1 else next((k.value for k in n.keywords if k.arg == "mode"), None)
             if isinstance(mode, ast.Constant) and isinstance(mode.value, str) and any(c in mode.value for c in "wax+"):
-                out.append((n.lineno, f"{dotted(n.func)}({n.args[0].id}, mode={mode.value!r}) opens the caller's buffer for writing", True))
+                out.append((n.lineno, f"{dotted(n.func)}({show(n.args[0])}, mode={mode.value!r}) opens the caller's buffer for writing", True))
+        # ---- the buffer handed to a callee outside the package
+        if mod is not None and isinstance(n, ast.Call):
+            handed = [a for a in n.args if is_buf(a) or (isinstance(a, ast.Starred) and is_buf(a.value))] + [k.value for k in n.keywords if is_buf(k.value)]
+            if not handed:
+                continue
+            if pkg is not None and pkg.resolve(mod, q or "", n) is not None:
+                continue                    # a function of the package: it carries this obligation itself
+            if mods is not None and bases is not None and resolve_ctor(mods, bases, mod, q or "", n) is not None:
+                continue                    # an initialiser of a class of the package: likewise
+            if mods is not None and resolve_by_name(mods, mod, n):
+                continue                    # a method of a class of the package (receiver of unknown type: every method of that name)
+            c = _canonical(mod, n.func)
+            if not c and isinstance(n.func, ast.Call):
+                c = _canonical(mod, n.func.func)       # a reader factory applied to the buffer: codecs.getreader(enc)(buffer)
+            tail = c.split(".")[-1] if c else ""
+            if isinstance(n.func, ast.Attribute) and isinstance(n.func.value, ast.Name) and n.func.value.id in ("logger", "logging", "log", "warnings"):
+                continue
+            if c in LIB_INERT or (isinstance(n.func, ast.Name) and n.func.id in LIB_INERT and n.func.id not in mod.functions):
+                continue
+            if c in LIB_OWNERS or (tail in {x.split(".")[-1] for x in LIB_OWNERS} and c.split(".")[0] in ("io", "_io", "codecs", "tempfile", tail)):
+                d = _detached(fnode, par, n)
+                if d == "yes":
+                    continue
+                out.append((n.lineno, f"{c}({show(handed[0])}) takes ownership of the caller's buffer: closing / finalising the wrapper closes it"
+                            + ("" if d == "no" else " unless .detach() runs on every path"), d == "no"))
+                continue
+            if c in LIB_READERS:
+                continue
+            if tail == "closing":
+                continue                    # reported above when used as a context manager
+            out.append((n.lineno, f"{c or ast.unparse(n.func)[:40]}({show(handed[0])}): the caller's buffer is handed to a callee that is not a known "
+                        "read-only entry point", False))
     return out
